@@ -72,7 +72,7 @@ class C07(TraceCheck):
                                "steps": [{"arr": A, "cp": [max(0, len(A) - 1), 0], "kind": "list"},
                                          {"arr": B, "cp": [0, 0], "kind": "fsarray" if n % 5 == 0 else "list"}]}
         for k in range(900 if tier == "quick" else 12000):
-            h, w = rng.randrange(2, 6), rng.randrange(2, 7)
+            h, w = rng.randrange(1, 8), rng.randrange(1, 8)
             L = lines_for(w)
             steps = []
             for _ in range(rng.randrange(1, 7)):
